@@ -5,4 +5,6 @@
 KeySeqGen ==
     << <<"A","z0">>, <<"A","s1">>, <<"A","s256">>, <<"A","s2e64">>,
        <<"B","z0">>, <<"B","s1">>, <<"B","s256">>, <<"B","s2e64">> >>
+\* spellings of serials in requests; the default is the canonical decimal of every class
+SpellingsGen == { [sp |-> "", rd |-> s] : s \in {"z0", "s1", "s256", "s2e64"} }
 =============================================================================
